@@ -10,7 +10,7 @@
 -/
 import Pdlv.Static
 import Pdlv.Schema
-import Pdlv.Thm.C05
+import Pdlv.Lemmas.Enc
 
 namespace Pdlv
 
